@@ -14,14 +14,21 @@ Definition tbuild (_ : list (string * string)) (_ : prep) (c : ctor) (_ : list (
            (p : tpayload) : tmsg := (c, p).
 Definition tstep (_ : actor) (s : tstate) (m : tmsg) : tstate := s ++ [m].
 
-(** payload 0 = a ConfigFullValue whose bytes do not decode *)
-Definition tdecodable (p : tpayload) : bool := negb (p =? 0).
+(** a payload is [16 * request number + class]:
+    class 0 = a ConfigFullValue whose bytes do not decode *)
+Definition tclass (p : tpayload) : nat := p mod 16.
+Definition tdecodable (p : tpayload) : bool := negb (tclass p =? 0).
 
-(** payload 7 sent to the table actor = a T_CACHE write in the old format: TableManager forwards
-    the converted request (here: payload 100) to DirectCacheManager with do_send *)
+(** class 7 sent to the table actor = a T_CACHE row in the old format: TableManager forwards the
+    converted request to DirectCacheManager with do_send;
+    class 6 sent to the config / naming actor = a request in a non-default namespace: the
+    handler notifies NamespaceActor (SetWeak / RemoveWeak) with do_send.
+    The forwarded message carries payload 1000 + p. *)
 Definition tfwd (a : actor) (m : tmsg) : list (actor * tmsg) :=
-  match a, m with
-  | ATable, (CPass, 7) => [(ACache, (CPass, 100))]
+  match a, tclass (snd m) with
+  | ATable, 7 => [(ACache, (CPass, 1000 + snd m))]
+  | AConfig, 6 => [(ANamespace, (CPass, 1000 + snd m))]
+  | ANaming, 6 => [(ANamespace, (CPass, 1000 + snd m))]
   | _, _ => []
   end.
 
@@ -36,7 +43,7 @@ Definition t_replay n sched reqs := final_replay tpayload tmsg tstate tbuild tst
 (** a sequence with all 11 variants *)
 Definition sample_reqs : list (req tpayload) :=
   [tq VNodeAddr 1; tq VMembers 2; tq VConfigSet 3; tq VConfigFullValue 4; tq VConfigRemove 5;
-   tq VTableManagerReq 6; tq VNamespaceReq 8; tq VSequenceReq 9; tq VMcpReq 10; tq VNamingReq 11;
+   tq VTableManagerReq 22; tq VNamespaceReq 8; tq VSequenceReq 9; tq VMcpReq 10; tq VNamingReq 11;
    tq VCacheReq 12; tq VConfigSet 13; tq VSequenceReq 14].
 
 Lemma tinit_clean : clean tmsg tstate tfwd tinit.
@@ -95,8 +102,8 @@ Definition forward_reqs : list (req tpayload) := [tq VTableManagerReq 7; tq VCac
 
 Lemma forward_race_diverges :
   forallb (prep_ok tpayload tdecodable) forward_reqs = true /\
-  wst (t_leader 2 [] forward_reqs) ACache = [(CPass, 100); (CPass, 9)] /\
-  wst (t_follower 2 [] (split [2] forward_reqs)) ACache = [(CPass, 9); (CPass, 100)] /\
+  wst (t_leader 2 [] forward_reqs) ACache = [(CPass, 1007); (CPass, 9)] /\
+  wst (t_follower 2 [] (split [2] forward_reqs)) ACache = [(CPass, 9); (CPass, 1007)] /\
   quiescent tmsg tstate (t_leader 2 [] forward_reqs) /\
   quiescent tmsg tstate (t_follower 2 [] (split [2] forward_reqs)).
 Proof.
